@@ -7,6 +7,7 @@ import GoZero.Extracted.C19
 import GoZero.C19.Lua
 import GoZero.C19.Proofs
 import GoZero.C19.Ids
+import GoZero.C19.Outcomes
 namespace GoZero.C19.Tie
 open GoZero.C19
 open GoZero.C19.Lua
@@ -315,5 +316,82 @@ theorem tie_randnBody : randnBody =
      "if idx := int(cache & letterIdxMask); idx < len(letterBytes) {", "b[i] = letterBytes[idx]", "i--", "}",
      "cache >>= letterIdxBits", "remain--", "}",
      "return string(b)"] := by decide
+
+/-! ### Round 5: every value the Go code can be handed; forwarded arguments of the delegating entry points -/
+
+/-- `Handed` as go-redis presents it: a reply (`goResp`), `resp == nil` with `err == nil`, or an error that is not
+`red.Nil` (also a typed-nil error value: the interface is non-nil) -/
+def goHanded : Handed → GoResp
+  | .reply r => goResp r
+  | .nilNoErr => ⟨false, false, true, false, false, "", 0⟩
+  | .err => goFailed
+
+/-- **AcquireCtx's statements after the script run, translated from the tree, are the model's `acquireHanded` for
+EVERY value the code can be handed** (not only the replies lockscript.lua can send) -/
+theorem tie_acquireHanded (h : Handed) : (goHanded h).app acquireDecide = acquireHanded h := by
+  cases h with
+  | reply r => exact tie_acquireDecide.1 r
+  | nilNoErr => decide
+  | err => exact tie_acquireDecide.2
+
+/-- **… ReleaseCtx's are `releaseHanded`**: true only for the `int64` 1; a nil reply comes back as the error -/
+theorem tie_releaseHanded (h : Handed) : (goHanded h).app releaseDecide = releaseHanded h := by
+  cases h with
+  | reply r => rw [show goHanded (.reply r) = goResp r from rfl, tie_releaseDecide.1 r]; cases r <;> simp [releaseHanded, releaseReply]
+  | nilNoErr => decide
+  | err => exact tie_releaseDecide.2
+
+/-- `Acquire()` / `Release()` are exactly `return rl.AcquireCtx(context.Background())` / `… ReleaseCtx …`:
+same receiver, the background context, nothing else (for every receiver: parametric in the argument type) -/
+theorem tie_wrapperFwd {α : Type} (rl bg : α) (lit : Nat → α) (spread : α → α) :
+    acquireWrapperFwd rl bg lit spread = ("AcquireCtx", rl, [bg]) ∧
+    releaseWrapperFwd rl bg lit spread = ("ReleaseCtx", rl, [bg]) := ⟨rfl, rfl⟩
+
+/-- the script runs of AcquireCtx / ReleaseCtx: `rl.store.ScriptRunCtx(ctx, lockScript | delScript, <1st literal>,
+<2nd literal>)` — the caller's context first, the right script object, KEYS before ARGV (the two literals are
+the ones translated as `acquireKeys`/`acquireArgv`, `releaseKeys`/`releaseArgv`: `tie_scriptArgs`) -/
+theorem tie_callSites {α : Type} (store ctx lockS delS bg : α) (lit : Nat → α) (spread : α → α) :
+    acquireCallSite store ctx lockS delS bg lit spread = ("ScriptRunCtx", store, [ctx, lockS, lit 1, lit 2]) ∧
+    releaseCallSite store ctx lockS delS bg lit spread = ("ScriptRunCtx", store, [ctx, delS, lit 1, lit 2]) := ⟨rfl, rfl⟩
+
+/-- `Redis.ScriptRunCtx(ctx, script, keys, args...)` = `conn, err := getRedis(s)`; error → `nil, err`; else
+`script.Run(ctx, conn, keys, args...).Result()`: every parameter forwarded to its own position -/
+theorem tie_scriptRunCtxFwd {α : Type} (ctx script keys args conn bg : α) (lit : Nat → α) (spread : α → α) :
+    scriptRunCtxFwd ctx script keys args conn bg lit spread = ("Run", script, [ctx, conn, keys, spread args]) ∧
+    scriptRunCtxParams = ["ctx", "script", "keys", "args..."] ∧
+    scriptRunCtxBody = ["assign conn, err := getRedis(s)", "if err != nil { return nil, err }",
+      "return", "  <run>.Result()"] := ⟨rfl, by decide, by decide⟩
+
+/-- Go's positional binding of a call's arguments to `ScriptRunCtx`'s parameters (the variadic one packs the rest) -/
+def bindScriptRunCtx {α : Type} (pack : List α → α) : List α → Option (α × α × α × α)
+  | ctx :: script :: keys :: rest => some (ctx, script, keys, pack rest)
+  | _ => none
+
+/-- **Acquire() → AcquireCtx → Redis.ScriptRunCtx → script.Run, argument by argument**: the script that runs is
+`lockScript` (for Release: `delScript`), with the wrapper's background context, KEYS = the first literal of the
+call site, ARGV = the second (packed into the variadic parameter and spread again) — a dropped, swapped or
+reordered argument anywhere on the path breaks this. -/
+theorem tie_call_forwarding {α : Type} (rl store lockS delS bg conn : α) (lit : Nat → α) (spread : α → α)
+    (pack : List α → α) :
+    ((acquireWrapperFwd rl bg lit spread).2.2.head?.bind fun ctx =>
+      (bindScriptRunCtx pack (acquireCallSite store ctx lockS delS bg lit spread).2.2).map fun a =>
+        scriptRunCtxFwd a.1 a.2.1 a.2.2.1 a.2.2.2 conn bg lit spread) =
+      some ("Run", lockS, [bg, conn, lit 1, spread (pack [lit 2])]) ∧
+    ((releaseWrapperFwd rl bg lit spread).2.2.head?.bind fun ctx =>
+      (bindScriptRunCtx pack (releaseCallSite store ctx lockS delS bg lit spread).2.2).map fun a =>
+        scriptRunCtxFwd a.1 a.2.1 a.2.2.1 a.2.2.2 conn bg lit spread) =
+      some ("Run", delS, [bg, conn, lit 1, spread (pack [lit 2])]) := ⟨rfl, rfl⟩
+
+/-- NewRedisLock: `store` and `key` are the caller's, the id is `stringx.Randn(16)`, no other field is set
+(`seconds` starts at its zero value) — for every store and key -/
+theorem tie_newLockFields {α : Type} (store key : α) (randn : Int → α) :
+    newLockFields store key randn = [("store", store), ("key", key), ("id", randn 16)] := rfl
+
+/-- `init()` of redislock.go is one expression statement whose value is dropped (`rand.NewSource(…)` allocates a
+source and nothing keeps it): no assignment, no store to package state — nothing of the lock depends on it -/
+theorem tie_initBody : initBody = ["rand.NewSource(time.Now().UnixNano())"] := by decide
+
+example : (goHanded (.reply (.bulk "ok"))).app acquireDecide = (false, false) ∧
+    (goHanded .nilNoErr).app releaseDecide = (false, false) := by decide
 
 end GoZero.C19.Tie
